@@ -1,7 +1,9 @@
 package props
 
 import (
+	"strings"
 	"sync"
+	"voicheck/econst"
 	"voicheck/edt"
 	"voicheck/elin"
 	"voicheck/erange"
@@ -146,6 +148,19 @@ func groupFoundations(c *Ctx, withAlias bool) {
 		run.Sample(checkAliasing(al, p, []string{"curve", "curve/scalar"}))
 	}
 	skeletonFoundations(c)
+	// the constants and tables every primitive multiplies with (base points, d, 2d, sqrt(-1), the
+	// packed fixed-base table and its unpacking, the odd-multiple tables, L, R, RR, LFACTOR): by value
+	// against the math/big oracle (E-CONST, the rules of C20 restricted to curve, curve/scalar, internal/field)
+	var names []string
+	for _, n := range econst.Names() {
+		if strings.HasPrefix(n, "curve.") || strings.HasPrefix(n, "curve/scalar.") || strings.HasPrefix(n, "internal/field.") {
+			if i := strings.LastIndexByte(n, '.'); i > 0 && p.Obj(n[:i], n[i+1:]) != nil {
+				names = append(names, n)
+			}
+		}
+	}
+	run.SetConfig(id)
+	econst.CheckNamed(run, p, "CONST", names...)
 }
 
 // skeletonFoundations: the serial (*Generic) scalar-multiplication routines, which the baseline
